@@ -273,7 +273,8 @@ def check(prop, tier):
             if not n:
                 continue
             shards = u.get("shards_" + tier, 4 if tier == "quick" else NCPU)
-            shards = max(1, min(shards, n))
+            if u.get("kind", "rapid") == "rapid":
+                shards = max(1, min(shards, n))
             per = -(-n // shards)
             timeout = u.get("timeout_" + tier, 900 if tier == "quick" else 7200)
             for i in range(shards):
@@ -325,7 +326,7 @@ def check(prop, tier):
                     continue
                 seen.add(path)
                 log("VIOLATION property=%s replay=%s" % (prop, path))
-                log("  " + msg.replace("\n", "\n  ")[:1500])
+                log("  " + "\n  ".join(msg.splitlines()[:4])[:700])
             return 1
         if inconclusive:
             for s in inconclusive:
